@@ -44,3 +44,40 @@ prop("C10",
      "Bounded threads/ops; lock and condvar leaves modelled; see assumptions in evidence.",
      "stateless model checking of the implementation: preemption-bounded DFS over a controlled scheduler",
      "DESIGN.md 4/C10")
+
+
+prop("C09",
+     [dict(name="C09", src="C09.cpp", deadline=dict(quick=60, thorough=600))],
+     SCHED_RULE + " Programs: N=2..3 (4 thorough) participants, G=2..3 (4) generations, every assignment of "
+     "drop-outs (wait_and_drop as a thread's last call at any generation, at least one thread stays), with and "
+     "without a scheduling point between consecutive calls; spurious wake-ups S<=2.",
+     "Real Barrier.hpp under the controlled scheduler. Oracles: ghost arrival counters per generation: when a "
+     "thread's g-th call returns, exactly all participants of generation g have arrived; all participants of every "
+     "generation return (deadlock detector = lost wake-up / generation mix-up); race detector on the counters.",
+     A_COMMON,
+     "Exhaustive exploration of all interleavings (preemption-bounded, iterated) and spurious wake-ups of every "
+     "small multi-generation barrier program with drop-outs over the real implementation.",
+     "Bounded participants/generations; mutex/condvar leaves modelled.",
+     "stateless model checking of the implementation: preemption-bounded DFS over a controlled scheduler",
+     "DESIGN.md 4/C09")
+
+
+prop("C11",
+     [dict(name="C11", src="C11.cpp", deadline=dict(quick=90, thorough=900))],
+     SCHED_RULE + " Alphabet: activate, trigger, reset, wait, wait_for, waitActivation, wait_forActivation, "
+     "isTriggered, isActive; initial state active/inactive; all 2-thread programs with <=2 ops per thread and all "
+     "3-thread programs with 1 op per thread that contain a waiting operation (thorough adds 3 threads with one "
+     "2-op thread and mutator-only programs); every timed wait may time out at any point; spurious wake-ups.",
+     "Real TriggerVariable.hpp under the controlled scheduler with a virtual clock. Oracles over a totally ordered "
+     "invocation/return log: (1) wait returns only if a trigger/reset follows the activation in force; (2) "
+     "waitActivation returns only after activation; (3) timed forms report false only if the event had not "
+     "happened; (4) trigger on an inactive variable fails, isActive/isTriggered agree with the life cycle; (5) at "
+     "quiescence no waiter is blocked although its event happened without re-activation (lost wake-up). Premises "
+     "use returned-before-invoked, conclusions tolerate overlap.",
+     A_COMMON,
+     "Exhaustive exploration of all interleavings, time-out placements and spurious wake-ups of every small client "
+     "program over the real TriggerVariable, with per-execution necessary-condition oracles and a quiescence "
+     "(lost wake-up) check.",
+     "Bounded threads/ops; mutex/condvar/clock leaves modelled.",
+     "stateless model checking of the implementation: preemption-bounded DFS over a controlled scheduler",
+     "DESIGN.md 4/C11")
